@@ -27,8 +27,9 @@ RULE = (
     "parallel links, self-links and all orientation labellings; built through GFA.add_node/add_edge in a drawn order. "
     "Checked: all_components == true components (partition); for connected graphs biccs() blocks == true blocks as a set "
     "of node sets with equal count, articulation points equal; dfs(start) duplicate-free and equal to the component. "
-    "Histories: rule-based machine (add_node, add_edge with overlap/tags, remove_node over <=6 ids); after every step "
-    "Node.start/Node.end equal the model's, neighbors() is the sorted merge, edge_tags mentions only live nodes, the graph "
+    "Histories: rule-based machine (add_node, add_edge with overlap/tags, remove_node over <=6 ids); after every edit "
+    "Node.start/Node.end equal the model's (attribute comparison); at generated 'query' steps and at the end of every history "
+    "(so that edits are not always separated by queries) neighbors() is the sorted merge, edge_tags mentions only live nodes, the graph "
     "is_equal_to one rebuilt from the model, and the decomposition checks hold. "
     "Non-trivial: graph with >=1 articulation point and >=2 blocks; history with a deletion followed by a further edit. "
     "Distinct by SHA-1 of the case."
@@ -179,14 +180,21 @@ def apply_step(g, model, step):
         raise AssertionError(op)
 
 
-def check_state(g, model, rebuild_seed=0):
-    from gaftools.gfa import GFA
-
+def check_sides(g, model):
+    """Adjacency of both link ends against the model, by attribute access only (no library query is made)."""
     core.check(set(g.nodes) == set(model.nodes), "node set %s, model %s", sorted(g.nodes), sorted(model.nodes))
     start, end = model.sides()
     for n in model.nodes:
         core.check(g.nodes[n].start == start[n], "node %s start side = %s, model = %s", n, sorted(g.nodes[n].start), sorted(start[n]))
         core.check(g.nodes[n].end == end[n], "node %s end side = %s, model = %s", n, sorted(g.nodes[n].end), sorted(end[n]))
+    return start, end
+
+
+def check_state(g, model, rebuild_seed=0):
+    from gaftools.gfa import GFA
+
+    start, end = check_sides(g, model)
+    for n in model.nodes:
         want = sorted([x[0] for x in start[n]] + [x[0] for x in end[n]])
         core.check(g.nodes[n].neighbors() == want, "neighbors(%s) = %s, model = %s", n, g.nodes[n].neighbors(), want)
     for k in g.edge_tags:
@@ -212,13 +220,20 @@ def run_history_case(case):
     model = Model()
     deletion_then_edit = False
     deleted = False
+    queries = any(s[0] == "query" for s in case["steps"])
     for step in case["steps"]:
+        if step[0] == "query":
+            check_state(g, model, case.get("rebuild_seed", 0))
+            continue
         apply_step(g, model, step)
         if deleted:
             deletion_then_edit = True
         if step[0] == "remove_node":
             deleted = True
-        check_state(g, model, case.get("rebuild_seed", 0))
+        if queries:
+            check_sides(g, model)
+        else:  # histories recorded before the 'query' step existed: query after every edit
+            check_state(g, model, case.get("rebuild_seed", 0))
     classes = ["history"]
     if deletion_then_edit:
         classes.append("deletion_then_edit")
@@ -249,8 +264,11 @@ def machine(tier, stats):
         def do(self, step):
             self.steps.append(step)
             try:
-                apply_step(self.g, self.model, step)
-                check_state(self.g, self.model, len(self.steps))
+                if step[0] == "query":
+                    check_state(self.g, self.model, len(self.steps))
+                else:
+                    apply_step(self.g, self.model, step)
+                    check_sides(self.g, self.model)
             except core.Violation as v:
                 v.case = {"kind": "history", "steps": [list(s) for s in self.steps], "rebuild_seed": len(self.steps)}
                 # replay uses one rebuild seed for all steps; that is fine, the seed only orders node insertion
@@ -274,10 +292,17 @@ def machine(tier, stats):
             n = data.draw(st.sampled_from(self.model.nodes))
             self.do(("remove_node", n))
 
+        @rule()
+        def query(self):
+            """all primitives are queried (components, dfs, biccs, neighbors) - not after every edit"""
+            self.do(("query",))
+
         def teardown(self):
+            if self.steps and self.steps[-1][0] != "query":
+                self.do(("query",))
             case = {"kind": "history", "steps": [list(s) for s in self.steps]}
             dele = [i for i, s in enumerate(self.steps) if s[0] == "remove_node"]
-            nontrivial = bool(dele) and dele[0] < len(self.steps) - 1
+            nontrivial = bool(dele) and any(s[0] != "query" for s in self.steps[dele[0] + 1:])
             cl = ["history"] + (["deletion_then_edit"] if nontrivial else [])
             stats.record(case, core.Result(nontrivial, cl))
 
